@@ -85,7 +85,10 @@ def gen_history(rng):
             nid = rng.choice(['1', '1', '2', '2', '3', '77'])
             lv = rng.choice([0, 0, 0, 1, 1, 2, 3, 8]) if rng.random() < 0.7 else rng.randint(0, 8)
             return p(r(f'«{tok[0]}»item'), ppr=f'<w:numPr><w:ilvl w:val="{lv}"/><w:numId w:val="{nid}"/></w:numPr>')
-        if k < 0.9: return p(r(f'«{tok[0]}»plain'))
+        if k < 0.9:
+            # a paragraph that WAS a list item (tracked change: the old numbering sits below w:pPrChange) is not one
+            was = '<w:pPrChange w:id="1" w:author="a"><w:pPr><w:numPr><w:ilvl w:val="0"/><w:numId w:val="1"/></w:numPr></w:pPr></w:pPrChange>' if rng.random() < 0.3 else None
+            return p(r(f'«{tok[0]}»plain'), ppr=was) if was else p(r(f'«{tok[0]}»plain'))
         tok[0] += 1
         return tbl(tr(tc(p(r(f'«{tok[0] - 1}»cell'), ppr='<w:numPr><w:ilvl w:val="0"/><w:numId w:val="1"/></w:numPr>')), tc(p(r(f'«{tok[0]}»c2')))))
     n = rng.choice([5, 10, 20, 60]) if rng.random() < 0.9 else 300
